@@ -322,19 +322,33 @@ fn input_snippet(
 
         let error_line = num >= start_line.0 as usize && num <= end_line.0 as usize;
         let arrow = error_line && missing_arrow;
+
+        // a range can end on the line's newline (which isn't part of `file_line`),
+        // or inside of a multi-byte character
+        let clamp = |idx: usize| {
+            let mut idx = idx.min(file_line.len());
+            while !file_line.is_char_boundary(idx) {
+                idx += 1;
+            }
+            idx
+        };
+        let start_idx = clamp(start_col.0 as usize);
+        let end_idx = clamp(end_col.0 as usize + 1);
+
         let file_line = match (num == start_line.0 as usize, num == end_line.0 as usize) {
             (true, true) => {
                 if arrow {
                     format!("{}{}", ansi_reset, file_line)
                 } else {
+                    let end_idx = end_idx.max(start_idx);
                     format!(
                         "{}{}{}{}{}{}",
                         ansi_reset,
-                        &file_line[..start_col.0 as usize],
+                        &file_line[..start_idx],
                         ansi_err,
-                        &file_line[start_col.0 as usize..end_col.0 as usize + 1],
+                        &file_line[start_idx..end_idx],
                         ansi_reset,
-                        &file_line[end_col.0 as usize + 1..],
+                        &file_line[end_idx..],
                     )
                 }
             }
@@ -342,18 +356,18 @@ fn input_snippet(
                 format!(
                     "{}{}{}{}",
                     ansi_reset,
-                    &file_line[..start_col.0 as usize],
+                    &file_line[..start_idx],
                     ansi_err,
-                    &file_line[start_col.0 as usize..]
+                    &file_line[start_idx..]
                 )
             }
             (false, true) => {
                 format!(
                     "{}{}{}{}",
                     ansi_err,
-                    &file_line[..end_col.0 as usize + 1],
+                    &file_line[..end_idx],
                     ansi_reset,
-                    &file_line[end_col.0 as usize + 1..]
+                    &file_line[end_idx..]
                 )
             }
             (false, false) if error_line => format!("{}{}", ansi_err, file_line),
